@@ -394,9 +394,11 @@ class State:
                 return True
             if 'truthy' in v.info:
                 return self.branch(v.info['truthy'], tag)
+            if v.kind == 'decimal':
+                return self.branch(z3.Function('decimal_nonzero', ObjS, z3.BoolSort())(v.t), tag)
             raise OutOfSubset('truthiness of opaque %s' % v.kind)
         if isinstance(v, SFloat):
-            raise OutOfSubset('truthiness of float')
+            return self.branch(z3.Function('float_nonzero', FloatS, z3.BoolSort())(v.t), tag)
         return bool(v)
 
     # -- obligations proved at the point they arise (callee preconditions etc.)
@@ -573,9 +575,12 @@ class State:
             return segs[0]
         # an older name whose (since refined) expansion is this very sequence
         for ck, chunk in list(self.refined_chunks.items()):
-            if ck in self.refine and self._segkey(self.expand(self.refine[ck])) == key:
-                self.pack_cache[key] = chunk
-                return chunk
+            if ck in self.refine:
+                other = [x for x in self.expand(self.refine[ck])
+                         if not (isinstance(x, Chunk) and self.must(x.len == 0))]
+                if self._segkey(other) == key:
+                    self.pack_cache[key] = chunk
+                    return chunk
         c = self.new_chunk(base)
         self.refine_chunk(c, segs)
         self.pack_cache[key] = c
